@@ -456,5 +456,5 @@ impl Prop for RoundTrip {
 
 pub fn run(env: &mut Env) {
     let t = env.thorough();
-    env.run_random::<RoundTrip>(if t { 10_000_000 } else { 500_000 });
+    env.run_random::<RoundTrip>(if t { 10_000_000 } else { 2_000_000 });
 }
